@@ -299,7 +299,7 @@ func (r *PaginatedResourceRepository[ResourceType, OptionsType]) Paginate(
 
 		_, field := r.resourceHandler.Schema().GetFieldByNameOrAlias(v.Column)
 		if field == nil {
-			return nil, fmt.Errorf("invalid property '%s' for pagination", v.Column)
+			return nil, NewErrInvalidQuery("invalid property '%s' for pagination", v.Column)
 		}
 
 		if !field.IsPaginated {
@@ -336,7 +336,7 @@ func (r *PaginatedResourceRepository[ResourceType, OptionsType]) Paginate(
 	case ColumnPaginatedQuery[OptionsType]:
 		fieldName, field := r.resourceHandler.Schema().GetFieldByNameOrAlias(v.Column)
 		if field == nil {
-			return nil, fmt.Errorf("invalid property '%s' for pagination", v.Column)
+			return nil, NewErrInvalidQuery("invalid property '%s' for pagination", v.Column)
 		}
 		paginator = newColumnPaginator[ResourceType, OptionsType](v, fieldName, field.Type)
 		resourceQuery = v.Options
